@@ -110,6 +110,10 @@ type Explorer struct {
 	Oblig    string
 	MapOrderNondet bool
 	RaceCheck      bool // happens-before race detection on heap cells and maps
+	TraceSync      bool // record mutex operations instead of blocking (lock-trace extraction)
+	SyncTraces     []SyncTrace
+	syncTrace      []SyncEv
+	syncObj        map[*mutexState]int
 	PathVectors []PathVector // input vectors of completed paths (for translator validation)
 	MaxVectors  int
 	Params   map[string]int
@@ -155,6 +159,8 @@ func (ex *Explorer) resetPath(it workItem) {
 	ex.steps = 0
 	ex.known = ""
 	ex.obsLog = ex.obsLog[:0]
+	ex.syncTrace = nil
+	ex.syncObj = nil
 }
 
 func (ex *Explorer) inconclusive(msg string) {
@@ -702,6 +708,15 @@ func (ex *Explorer) runOne(run func()) {
 		ex.Stats.PathsOK++
 		if ex.pos < len(ex.prefix) {
 			ex.inconclusive("re-execution ended before consuming its decision prefix (nondeterminism)")
+		}
+		if ex.TraceSync {
+			ch := map[string]uint64{}
+			for k, v := range ex.model.Vars {
+				if strings.HasPrefix(k, "choice:") {
+					ch[k] = v
+				}
+			}
+			ex.SyncTraces = append(ex.SyncTraces, SyncTrace{Choices: ch, Events: append([]SyncEv{}, ex.syncTrace...)})
 		}
 		if ex.concrete == nil && len(ex.PathVectors) < ex.MaxVectors {
 			in, uf := ex.snapshotInputs(ex.model)
